@@ -63,4 +63,21 @@ let () =
                enc_str text ^ "|" ^ enc_str (Str.join [n_of_int 59] st.ExprGen.stmts) ^ "|" ^ den ^ "|" ^ value
            | _ -> "SKIP")
         with Outside -> "SKIP")
+    | _ -> "ERR args");
+  (* expr_sem <esc> <expr> <data> : V<json value of Val.eval> | O (outside), the value of the emitted tree after
+     running the hoists (jeval), the hoisted statements, the value text *)
+  register "expr_sem" (function
+    | [esc; sx; dsx] ->
+        (try
+          let e = expr_of (parse_sexp sx) in
+          let lit_str = mk_lit_str esc in
+          let d = val_of (parse_sexp dsx) in
+          let ev = { Val.e_data = d; Val.e_scopes = [] } in
+          let (st, o) = ExprGen.gen_core [] lit_str e (ExprGen.mk_gst BinNums.N0) in
+          let show = (function Some v -> "V" ^ val_json v | None -> "O") in
+          let src = show (Val.eval ev e) in
+          let henv = JsSem.run_hoists ev st.ExprGen.hoists_js (fun _ -> None) in
+          let tgt = show (JsSem.jeval ev henv o.ExprGen.g_js) in
+          src ^ "|" ^ tgt ^ "|" ^ enc_str (Str.join [n_of_int 59] st.ExprGen.stmts) ^ "|" ^ enc_str o.ExprGen.g_val
+        with Outside -> "SKIP")
     | _ -> "ERR args")
